@@ -1766,6 +1766,8 @@ var verifExtraConfigs = []struct{ name, json string }{
 	{"unrelated-class-in-builtin-frame", `{"frame": "Builtin", "class": "Zzunrelated", "instance_methods": [{"name": "foo", "arguments": [], "return_type": {"type": ["String"]}}], "class_methods": [{"name": "make", "arguments": [], "return_type": {"type": ["Zzunrelated"]}}]}`},
 	{"unrelated-class-with-extends", `{"frame": "Builtin", "class": "Zzchild", "extends": ["Array"], "instance_methods": [{"name": "first", "arguments": [], "return_type": {"type": ["String"]}}], "class_methods": []}`},
 	{"same-short-name-as-user-module", `{"frame": "Other", "class": "Mm", "instance_methods": [{"name": "mod_m", "arguments": [], "return_type": {"type": ["String"]}}], "class_methods": []}`},
+	{"same-short-name-as-namespaced-user-module-in-a-nested-builtin-frame", `{"frame": "Builtin::Vendor", "class": "Hl", "instance_methods": [{"name": "twice", "arguments": [], "return_type": {"type": ["String"]}}, {"name": "other", "arguments": [], "return_type": {"type": ["Int"]}}], "class_methods": []}`},
+	{"same-short-name-as-namespaced-user-class-in-builtin-frame", `{"frame": "Builtin", "class": "Gq", "instance_methods": [{"name": "gm", "arguments": [{"type": ["Int"]}], "return_type": {"type": ["String"]}}], "class_methods": [{"name": "new", "arguments": [{"type": ["Int"]}], "return_type": {"type": ["Gq"]}}]}`},
 	{"unrelated-class-whose-methods-are-named-like-object-and-kernel-methods", `{"frame": "Builtin", "class": "Zzprobe", "instance_methods": [{"name": "sleep_ms", "arguments": [{"type": ["String"]}], "return_type": {"type": ["String"]}}, {"name": "system", "arguments": [{"type": ["Int"]}], "return_type": {"type": ["Int"]}}, {"name": "to_s", "arguments": [{"type": ["Int"]}], "return_type": {"type": ["Int"]}}, {"name": "nil?", "arguments": [{"type": ["Int"]}], "return_type": {"type": ["Int"]}}], "class_methods": [{"name": "methods", "arguments": [{"type": ["Int"]}], "return_type": {"type": ["Int"]}}]}`},
 	{"unrelated-class-in-another-frame-whose-methods-are-named-like-object-and-array-methods", `{"frame": "Other", "class": "Zzprobe", "instance_methods": [{"name": "sleep_ms", "arguments": [{"type": ["String"]}], "return_type": {"type": ["String"]}}, {"name": "first", "arguments": [{"type": ["String"]}], "return_type": {"type": ["Float"]}}, {"name": "push", "arguments": [], "return_type": {"type": ["Float"]}}], "class_methods": []}`},
 }
@@ -1781,7 +1783,9 @@ func VerifExtraConfig(n int) {
 	src := "module Mm\ndef mod_m\n1\nend\nend\nclass Aa\ninclude Mm\ndef foo\nSym.a\nend\nend\nclass Bb < Aa\ndef bar\nfoo\nend\nend\n" +
 		"dbtp Bb.new.foo\ndbtp Aa.new.foo\ndbtp Bb.new.bar\ndbtp Bb.new.mod_m\nv = [1].first\ndbtp v\nBb.new.nope\n" +
 		// calls the shipped signatures reject: an extra class must not make them acceptable
-		"w = sleep_ms \"250\"\ndbtp w\nsystem 5\nt = 5.to_s(3)\ndbtp t\nq = 5.nil?(1)\ndbtp q\nf = [1].first(\"s\")\ndbtp f\ng = [1].push\ndbtp g\nm = Aa.methods(1)\ndbtp m\n"
+		"w = sleep_ms \"250\"\ndbtp w\nsystem 5\nt = 5.to_s(3)\ndbtp t\nq = 5.nil?(1)\ndbtp q\nf = [1].first(\"s\")\ndbtp f\ng = [1].push\ndbtp g\nm = Aa.methods(1)\ndbtp m\n" +
+		// namespaced user module and class whose short names an extra file may reuse
+		"module Ap\nmodule Hl\ndef twice(v)\nv\nend\nend\nclass Gq\ndef gm\n1.5\nend\nend\nend\nclass Gd\ninclude Ap::Hl\nend\ndbtp Gd.new.twice(Sym.a)\ndbtp Ap::Gq.new.gm\n"
 	flags := cmd.NewExecuteFlags()
 	if withI == 1 {
 		flags.IsDefineInfo = true
@@ -2221,7 +2225,7 @@ func VerifCallGraphNamesakes(n int) {
 // and next to a top-level decoy class with the same short name as the group's superclass but
 // different methods. Outputs must agree apart from rows and the Mm:: qualification.
 func VerifNamespaces(n int) {
-	variant := verifapi.Concrete(verifapi.Int("variant", 0, 7))
+	variant := verifapi.Concrete(verifapi.Int("variant", 0, 9))
 	depth := verifapi.Concrete(verifapi.Int("depth", 2, 3))
 	s := verifInstallSym("a")
 	verifapi.WitnessList("Sym.a", verifKN(s.ka))
@@ -2275,6 +2279,25 @@ func VerifNamespaces(n int) {
 	case 7: // two-module group vs the same next to a top-level namesake of the superclass
 		a, b, name = wrapped2q, decoy+wrapped2q, "top-level-namesake-of-superclass-before-two-module-group"
 		at, delta = 1, verifCountLines(decoy)
+	case 8, 9:
+		// an attribute declared in the grandparent, a chain that leaves the namespace: Root and
+		// Mid live in the module, Top < Mm::Mid at top level
+		chain := func(q string) string {
+			return "class Root\nattr_accessor :nm\ndef initialize\n@nm = Sym.a\nend\ndef rm\nSym.a\nend\nend\nclass Mid < " + q + "Root\nend\n"
+		}
+		use := func(q string) string {
+			return "class Top < " + q + "Mid\nend\ndbtp Top.new.nm\ndbtp Top.new.rm\ndbtp " + q + "Mid.new.nm\nTop.new.nope\n"
+		}
+		glines = verifCountLines(chain(""))
+		topV := chain("") + use("")
+		wrappedV := "module Mm\n" + chain("Mm::") + "end\n" + use("Mm::")
+		if variant == 8 {
+			a, b, name, wrap = topV, wrappedV, "attribute-of-grandparent-through-a-chain-leaving-the-module", 1
+		} else {
+			spare := "class Spare\nattr_accessor :nm\ndef initialize\n@nm = 1.5\nend\nend\nclass Mid < Spare\nend\n"
+			a, b, name = wrappedV, spare+wrappedV, "top-level-namesake-of-the-middle-class-with-another-parent"
+			at, delta = 1, verifCountLines(spare)
+		}
 	}
 	outA, outB := verifRunTwo(a, b)
 	verifapi.Reach("ran")
@@ -2303,7 +2326,7 @@ func VerifNamespaces(n int) {
 // receiver (own, inherited, Object's) and none that only unrelated classes define, no class
 // methods for an instance receiver (and vice versa), no private method of another class.
 func VerifSuggest(n int) {
-	recv := verifapi.Concrete(verifapi.Int("receiver", 0, 3))
+	recv := verifapi.Concrete(verifapi.Int("receiver", 0, 4))
 	dot := verifapi.Concrete(verifapi.Int("dot", 0, 2))
 	s := &verifSym{}
 	if recv == 2 {
@@ -2315,8 +2338,12 @@ func VerifSuggest(n int) {
 	if recv != 2 {
 		src = strings.Replace(src, "v = Sym.a\n", "v = 1\n", 1)
 	}
+	if recv == 4 {
+		// a class receiver whose user-defined name has no lower-case letter
+		src = "class SENSOR\ndef self.scan\n1\nend\ndef inst_s\n2\nend\nend\nclass ADC < SENSOR\ndef self.open\n3\nend\ndef inst_a\n4\nend\nend\nclass OTHER\ndef self.oth\n5\nend\nend\nv = 1\n"
+	}
 	row := verifCountLines(src) + 1
-	cursor := []string{"k", "Bb", "v", "[1]"}[recv]
+	cursor := []string{"k", "Bb", "v", "[1]", "ADC"}[recv]
 	if dot >= 1 {
 		cursor += "."
 	}
@@ -2331,7 +2358,7 @@ func VerifSuggest(n int) {
 	out := verifRunFlags(src, flags, row)
 	verifapi.Reach("ran")
 	form := []string{"receiver-alone", "receiver-with-trailing-dot", "receiver-with-trailing-dot-followed-by-a-statement"}[dot]
-	rname := []string{"user-instance", "user-class", "configured-class-value", "array-literal"}[recv]
+	rname := []string{"user-instance", "user-class", "configured-class-value", "array-literal", "user-class-with-upper-case-only-name"}[recv]
 	must := func(id, m, what string) {
 		verifapi.Witness(id+".must", m)
 		verifapi.Classify("C23/callable-method-not-listed/" + what + "/" + rname + "/" + form)
@@ -2363,6 +2390,11 @@ func VerifSuggest(n int) {
 		must("C23-obj", "nil?", "object-method")
 		mustNot("C23-unrel", verifapi.Pick(s.ka-1, "upcase", "times"), "method-of-unrelated-class")
 		mustNot("C23-unrel2", "pz", "method-of-unrelated-class")
+	case 4:
+		must("C23-own", "open", "own-class-method")
+		must("C23-inh", "scan", "inherited-class-method")
+		mustNot("C23-unrel", "oth", "method-of-unrelated-class")
+		mustNot("C23-static", "inst_a", "instance-method-for-class-receiver")
 	case 3:
 		must("C23-own", "push", "configured-class-method")
 		mustNot("C23-unrel", "upcase", "method-of-unrelated-class")
